@@ -14,8 +14,8 @@ func init() {
 			ruleWatcher(c, "C04.8")
 			ruleQueueDiscipline(c, "C04.9")
 		},
-		Explain: "Static necessary conditions of tunnel termination reaching both ends: every client loop exit closes the channel with the cause; the server loop defers the cancel of the handlers' root context, derived from the carrier context; the channel close sets the flag, stores the cause, cancels every stream and the channel context, after running the tear-down; new RPCs test the flag in the same critical section; every blocking wait in the package has a release edge fired by the termination functions (A10), with the stream contexts cancelled on every finishing path; close paths reach the carrier (tear-down CloseSend, Stop: CloseSend every instance then wait; Add/Done pairing); sticky errors after finish. Necessary, not sufficient for 'nothing hangs'.",
-		Assume: []string{"the transport reports failures to Recv", "context cancellation wakes Done() waiters"},
+		Explain:    "Static necessary conditions of tunnel termination reaching both ends: every client loop exit closes the channel with the cause; the server loop defers the cancel of the handlers' root context, derived from the carrier context; the channel close sets the flag, stores the cause, cancels every stream and the channel context, after running the tear-down; new RPCs test the flag in the same critical section; every blocking wait in the package has a release edge fired by the termination functions (A10), with the stream contexts cancelled on every finishing path; close paths reach the carrier (tear-down CloseSend, Stop: CloseSend every instance then wait; Add/Done pairing); sticky errors after finish. Necessary, not sufficient for 'nothing hangs'.",
+		Assume:     []string{"the transport reports failures to Recv", "context cancellation wakes Done() waiters"},
 		NotDecided: []string{"'immediately'", "absence of hangs as such (release edges are necessary, not sufficient)", "every-frame-boundary fault enumeration", "GracefulStop's wait (reported under C10.6)"},
 	})
 	register("C08", &propDef{
@@ -28,8 +28,8 @@ func init() {
 			ruleLateFramesInert(c, "C08.6")
 			ruleEmitIDs(c, "C08.7")
 		},
-		Explain: "Static necessary conditions of unique, increasing ids and one handler invocation per RPC: allocation and first send inside one continuously held mutex; counter written only by +1 under the channel mutex, post-increment value used, overflow test first; stream handed out only after a successful new_stream send (entry removed and no watcher otherwise); server-side id validation by exactly `<=` against the high-water mark with tunnel-level refusal; the dispatched descriptor and implementation come from one lookup of this frame's own service/method names; exactly one dispatch spawn and one handler call per arm; late frames inert.",
-		Assume: []string{"lock identity is type + field", "grpchan.HandlerMap.QueryService returns the registered service"},
+		Explain:    "Static necessary conditions of unique, increasing ids and one handler invocation per RPC: allocation and first send inside one continuously held mutex; counter written only by +1 under the channel mutex, post-increment value used, overflow test first; stream handed out only after a successful new_stream send (entry removed and no watcher otherwise); server-side id validation by exactly `<=` against the high-water mark with tunnel-level refusal; the dispatched descriptor and implementation come from one lookup of this frame's own service/method names; exactly one dispatch spawn and one handler call per arm; late frames inert.",
+		Assume:     []string{"lock identity is type + field", "grpchan.HandlerMap.QueryService returns the registered service"},
 		NotDecided: []string{"that the peer's handler is 'exactly the named' one beyond the lookup value flow", "wire order under real schedules (the rule is the critical-section shape)"},
 	})
 	register("C10", &propDef{
@@ -42,8 +42,8 @@ func init() {
 			ruleGracefulStopReturns(c, "C10.6")
 			ruleEmitIDs(c, "C10.7")
 		},
-		Explain: "Static necessary conditions of graceful shutdown: the table insert is gated by the shutting-down predicate whose true edge is a stream-level Unavailable; the refused id is recorded first so the refusal cannot abort the tunnel; the refusal reply is sent off the loop, once; the shutdown entry points set exactly what the predicates read; Stop's structure (state, CloseSend all, wait; Add/Done pairing); and every WaitGroup wait has a release edge — GracefulStop has none (known finding F-7).",
-		Assume: []string{"sync.WaitGroup and atomic.Bool semantics"},
+		Explain:    "Static necessary conditions of graceful shutdown: the table insert is gated by the shutting-down predicate whose true edge is a stream-level Unavailable; the refused id is recorded first so the refusal cannot abort the tunnel; the refusal reply is sent off the loop, once; the shutdown entry points set exactly what the predicates read; Stop's structure (state, CloseSend all, wait; Add/Done pairing); and every WaitGroup wait has a release edge — GracefulStop has none (known finding F-7).",
+		Assume:     []string{"sync.WaitGroup and atomic.Bool semantics"},
 		NotDecided: []string{"that in-flight RPCs keep 'the outcome they would have had anyway'", "timing of GracefulStop's return"},
 	})
 	register("C14", &propDef{
@@ -58,8 +58,8 @@ func init() {
 			ruleCloseOnce(c, "C14.8")
 			ruleCloseSafety(c, "C14.9")
 		},
-		Explain: "Static necessary conditions of 'nothing left behind': every go statement falls in a verified termination class (straight-line sender, context watcher whose context is cancelled on every finishing path, receive loop, dispatch with deferred finish); every table insert has its delete on every finishing path (both ends) and on first-send failure; stream contexts are cancelled on every finishing path; cancel empties the queue; no run-time writes to package-level state; registry add/deferred-remove pairing.",
-		Assume: []string{"handlers return when their context is cancelled and their blocking operations are released (C04.4)"},
+		Explain:    "Static necessary conditions of 'nothing left behind': every go statement falls in a verified termination class (straight-line sender, context watcher whose context is cancelled on every finishing path, receive loop, dispatch with deferred finish); every table insert has its delete on every finishing path (both ends) and on first-send failure; stream contexts are cancelled on every finishing path; cancel empties the queue; no run-time writes to package-level state; registry add/deferred-remove pairing.",
+		Assume:     []string{"handlers return when their context is cancelled and their blocking operations are released (C04.4)"},
 		NotDecided: []string{"actual goroutine counts", "that application handlers return", "ReverseTunnelServer.instances is never pruned (observation O-3: per-tunnel, outside the tables the property names)"},
 	})
 }
